@@ -12,6 +12,19 @@ def run(tier):
     full = tier == 'thorough'
     wx = tzconf.check_wall(chk, exe, 'extended', os.path.join(common.REPO, 'src/ace_time/zonedbx'), 'later', 'zonedbx', nrandom, full=full)
     wb = tzconf.check_wall(chk, exe, 'basic', os.path.join(common.REPO, 'src/ace_time/zonedb'), 'either', 'zonedb', nrandom, full=full)
+    # zones created directly on one shared processor and used alternately resolve local times like zones with their own
+    import json
+    nshared = 0
+    for db in ('extended', 'basic'):
+        rc, out, err, _ = common.run_cmd([exe, 'wallshared', db], timeout=1800)
+        recs = [json.loads(l) for l in out.splitlines() if l.startswith('{')]
+        if rc != 0 or not recs:
+            chk.violation('%s:shared-processor:crash' % db, 'tzscan wallshared crashed rc=%s: %s' % (rc, err[-600:]), {})
+            continue
+        nshared += recs[-1]['nq']
+        if recs[-1]['nbad']:
+            chk.violation('%s:shared-processor:forComponents' % db, 'two directly created zones sharing one processor, used alternately: %d of %d local times resolve differently from zones with their own processor; first: %s' % (recs[-1]['nbad'], recs[-1]['nq'], recs[-1]['first']), recs[-1]['first'])
+    chk.add(forComponents_on_shared_processor=nshared)
     # algorithm level: the same recorded resolutions must *equal* what ExtProc.tla (findTransitionForDateTime + normalisation
     # on the table of the local year) and BasicProc.tla (the three-step offset iteration over the tables selected by UTC date)
     # compute from the compiled tables, at the start of every recorded piece and at every wall time where the model can change
